@@ -136,8 +136,10 @@ func judge(id int, v *Vector) (Outcome, *TraceEvent) {
 	if id%1000000 == 1 {
 		o.Texts = r.Texts // a sample of what was compiled, for the evidence file
 	}
-	if v.Verdict == "unjudged" {
-		return o, nil
+	if v.Verdict == "unjudged" || (v.Verdict == "err" && r.OK && len(v.Flt) > 0) {
+		// the model does not judge this module set (or, for C20, rejects what the compiler accepts): the filtered
+		// compiles are still logged - whatever compiles unfiltered must prune exactly (judged by the trace spec)
+		return o, filterEvent(id, v, r, nil)
 	}
 	if v.Verdict == "record" {
 		// a sampled module set without expectation: log what the code does, the trace validator judges it
@@ -191,28 +193,41 @@ func judge(id int, v *Vector) (Outcome, *TraceEvent) {
 			add(diffMism("alt-vs-original", r.Dump, ra.Dump, oa, ""))
 		}
 	}
-	var ev *TraceEvent
-	if len(v.Flt) > 0 && r.OK {
-		ev = &TraceEvent{ID: id, Mods: v.Mods, OK: true, Dump: r.Dump, Feats: [][]string{}, Filtered: []FilteredDump{}}
-		for _, fv := range v.Flt {
-			rf := scm.Compile(v.Mods, v.Feats, fv.F)
-			fd := FilteredDump{F: normFilter(fv.F), OK: rf.OK, Dump: rf.Dump}
-			if !rf.OK {
-				fd.Dump = emptyTree
-				add(&Mism{Cmp: "filter-vs-model", Attr: "verdict", Want: "ok", Got: verdictOf(rf) + " " + short(rf.Err), Filter: fv.F.String()})
-			} else if v.Verdict == "ok" {
-				schemadump.Canon(fv.Schema)
-				add(diffMism("filter-vs-model", fv.Schema, rf.Dump, schemadump.Options{IgnoreAsParent: true}, fv.F.String()))
-			}
-			ev.Filtered = append(ev.Filtered, fd)
+	ev := filterEvent(id, v, r, func(fv FltVec, rf scm.Result) {
+		if !rf.OK {
+			add(&Mism{Cmp: "filter-vs-model", Attr: "verdict", Want: "ok", Got: verdictOf(rf) + " " + short(rf.Err), Filter: fv.F.String()})
+		} else if v.Verdict == "ok" {
+			schemadump.Canon(fv.Schema)
+			add(diffMism("filter-vs-model", fv.Schema, rf.Dump, schemadump.Options{IgnoreAsParent: true}, fv.F.String()))
 		}
-	}
+	})
 	if len(o.Mism) > 0 {
 		o.Texts = r.Texts
 	} else if id%1000000 != 1 {
 		o.AltText = nil
 	}
 	return o, ev
+}
+
+// filterEvent compiles the module set under every filter of the vector and returns the trace event
+// (unfiltered dump, filtered dumps); nil when there are no filters or the unfiltered compile failed.
+func filterEvent(id int, v *Vector, r scm.Result, each func(FltVec, scm.Result)) *TraceEvent {
+	if len(v.Flt) == 0 || !r.OK {
+		return nil
+	}
+	ev := &TraceEvent{ID: id, Mods: v.Mods, OK: true, Dump: r.Dump, Feats: [][]string{}, Filtered: []FilteredDump{}}
+	for _, fv := range v.Flt {
+		rf := scm.Compile(v.Mods, v.Feats, fv.F)
+		fd := FilteredDump{F: normFilter(fv.F), OK: rf.OK, Dump: rf.Dump}
+		if !rf.OK {
+			fd.Dump = emptyTree
+		}
+		if each != nil {
+			each(fv, rf)
+		}
+		ev.Filtered = append(ev.Filtered, fd)
+	}
+	return ev
 }
 
 // replay: vectors -> outcomes (and trace events for vectors that carry filters)
